@@ -24,6 +24,13 @@ def counts(out):
     return (sum(int(x) for x in re.findall(r"test result: \w+\. (\d+) passed", out)), sum(int(x) for x in re.findall(r"passed; (\d+) failed", out)))
 
 
+def fresh_copy(delete=False):
+    """Scratch copy of /repo's working tree.  Source mtimes are set to now: with a target directory shared between
+    scratch copies cargo's mtime-based freshness test would otherwise reuse a binary built from another copy."""
+    sh(["rsync", "-a"] + (["--delete"] if delete else []) + ["--exclude", "target", "--exclude", ".git", "/repo/", d + "/"], cwd="/")
+    sh(["find", d, "-name", "*.rs", "-exec", "touch", "{}", "+"], cwd="/")
+
+
 def install_demo():
     kind, where = mode.split(":", 1)
     if kind == "tests":
@@ -52,7 +59,7 @@ def run_demo():
 
 res = {"patch": patch, "demo": demo, "mode": mode}
 try:
-    sh(["rsync", "-a", "--exclude", "target", "--exclude", ".git", "/repo/", d + "/"], cwd="/")
+    fresh_copy()
     # (3) without the change: demo passes
     install_demo()
     r = run_demo()
@@ -61,7 +68,7 @@ try:
     if "could not compile" in r.stdout:
         res["demo_without_change"]["log"] = r.stdout[-1500:]
     # reset tree, apply change
-    sh(["rsync", "-a", "--delete", "--exclude", "target", "--exclude", ".git", "/repo/", d + "/"], cwd="/")
+    fresh_copy(delete=True)
     a = sh(["git", "apply", "--unsafe-paths", "--directory=" + d, patch], cwd="/") if False else sh(["patch", "-p1", "-s", "-i", patch])
     res["patch_applies"] = a.returncode == 0
     if a.returncode != 0:
